@@ -145,12 +145,11 @@ func c14RunMachines(c *Ctx) {
 	if rms == nil || rm == nil {
 		return
 	}
+	// a walk is a call of RunMachine or of a helper of the package that (transitively) calls it
 	var runs []*ssa.Call
-	ssau.Instrs(rms, func(in ssa.Instruction) {
-		if cl, ok := in.(*ssa.Call); ok && cl.Common().StaticCallee() == rm {
-			runs = append(runs, cl)
-		}
-	})
+	for _, ws := range c14WalkSites(rms, rm, 0) {
+		runs = append(runs, ws.call)
+	}
 	if len(runs) == 0 {
 		c.R.Break("C14-R6: RunMachines does not call RunMachine")
 		return
